@@ -166,7 +166,7 @@ fn convert_hgignore_pattern(
 }
 
 static HG_CONVERT_REPLACE_REGEX: LazyLock<Regex> = LazyLock::new(|| {
-    Regex::new("(\\*\\*|\\?|\\.|\\*)").unwrap()
+    Regex::new("(\\*\\*/|\\*\\*|\\?|\\.|\\*)").unwrap()
 });
 
 fn convert_hgignore_glob(glob: &str, file_path: &Path) -> Result<Regex, Error> {
@@ -175,6 +175,8 @@ fn convert_hgignore_glob(glob: &str, file_path: &Path) -> Result<Regex, Error> {
         let mut pattern = HG_CONVERT_REPLACE_REGEX
             .replace_all(&glob, |c: &Captures| {
                 match c.index(0) {
+                    // `**/` also stands for no directory at all
+                    "**/" => "(.*/)?",
                     "**" => ".*",
                     "." => "\\.",
                     "*" => "[^/]*",
